@@ -396,7 +396,9 @@ impl ArchiveManager {
         file.flush()
             .map_err(|e| StorageError::Archive(format!("Failed to flush: {e}")))?;
 
-        // Check if file grew significantly and remap if needed
+        // Remap if the file grew: reads are served from the memory mapping and
+        // are bounded by its length, so a mapping that does not cover the data
+        // just written makes that entry unreadable.
         let new_size = self.get_file_size(&archive_path)?;
         let current_size = {
             let archive = self
@@ -407,17 +409,7 @@ impl ArchiveManager {
             archive.size
         };
 
-        // Remap if file grew by more than 64MB or doubled in size
-        let size_threshold = 64 * 1024 * 1024; // 64MB
-        let size_difference = new_size.saturating_sub(current_size);
-        #[allow(clippy::cast_precision_loss)]
-        let size_ratio = if current_size > 0 {
-            new_size as f64 / current_size as f64
-        } else {
-            f64::INFINITY
-        };
-
-        if size_difference > size_threshold || size_ratio > 2.0 {
+        if new_size > current_size {
             debug!(
                 "Remapping archive {} due to size change: {} -> {} bytes",
                 id, current_size, new_size
@@ -1031,6 +1023,37 @@ mod tests {
             decompressed, test_data,
             "round-trip through local header should recover original data"
         );
+    }
+
+    #[test]
+    fn test_every_write_is_readable_regardless_of_size_order() {
+        let temp_dir = tempdir().expect("Failed to create temp dir");
+        let mut manager = ArchiveManager::new(temp_dir.path());
+
+        // Large then small, equal, empty: none of the later writes doubles
+        // the archive, all of them must be readable right away.
+        let payloads: Vec<Vec<u8>> = vec![
+            vec![0x11; 1000],
+            vec![0x22; 100],
+            vec![0x33; 100],
+            Vec::new(),
+            vec![0x44; 50],
+        ];
+
+        let mut locations = Vec::new();
+        for payload in &payloads {
+            let (archive_id, offset, total_size, _) = manager
+                .write_content(payload, false)
+                .expect("write should succeed");
+            locations.push((archive_id, offset, total_size));
+
+            for (expected, (id, off, size)) in payloads.iter().zip(&locations) {
+                let read = manager
+                    .read_content(*id, *off, *size)
+                    .expect("every written entry should be readable");
+                assert_eq!(&read, expected);
+            }
+        }
     }
 
     #[test]
